@@ -17,3 +17,5 @@ open SamVerif.C01
 #print axioms paramState_c32_sound
 #print axioms paramState_unused_sound
 #print axioms mem_selfCallReads
+#print axioms cpe_unused_preserves
+#print axioms cpe_const_preserves
